@@ -43,7 +43,7 @@ func (t *Translator) edge(st *State, from, to *ssa.BasicBlock, cond string) {
 	e.pc = npc
 	e.pcHasOb = false
 	if t.isBackEdge(from, to) {
-		t.backEdge(t.loops[to], e)
+		t.backEdge(t.loops[to], e, from)
 		return
 	}
 	t.incoming[to] = append(t.incoming[to], edgeIn{from, e})
@@ -595,6 +595,11 @@ func (t *Translator) binop(st *State, in *ssa.BinOp) {
 
 func (t *Translator) doReturn(st *State, in *ssa.Return) {
 	pos := t.w.pos(in.Pos())
+	if !in.Pos().IsValid() {
+		if syn := t.fn.Syntax(); syn != nil {
+			pos = t.w.pos(syn.End())
+		}
+	}
 	if t.parent != nil {
 		var rs []string
 		for _, r := range in.Results {
@@ -606,6 +611,7 @@ func (t *Translator) doReturn(st *State, in *ssa.Return) {
 	if t.spec == nil {
 		return
 	}
+	t.cover(st, "return", pos)
 	extra := map[string]binding{}
 	for i, r := range in.Results {
 		var v string
@@ -625,4 +631,25 @@ func (t *Translator) doReturn(st *State, in *ssa.Return) {
 		t.oblige(st, "ensures", c.Label, c.Tags, f, pos, c.Src)
 	}
 	t.implicitFrameCheck(st, "return", pos)
+}
+
+// cover adds a reachability (vacuity) check: the path condition here must be satisfiable.
+func (t *Translator) cover(st *State, what, pos string) {
+	name := t.short + "#cover." + what
+	base := name
+	for i := 2; ; i++ {
+		dup := false
+		for _, o := range t.vc.obs {
+			if o.Name == name {
+				dup = true
+				break
+			}
+		}
+		if !dup {
+			break
+		}
+		name = fmt.Sprintf("%s~%d", base, i)
+	}
+	t.vc.obs = append(t.vc.obs, &Obligation{Name: name, Kind: "cover", PC: st.pc, Goal: "true", Cover: true, Func: t.short, Pos: pos, vc: t.vc})
+	st.pcHasOb = true
 }
